@@ -2,3 +2,4 @@ import MellonModel.Scalar
 import MellonModel.Linalg
 import MellonModel.Kernel
 import MellonModel.Conditional
+import MellonModel.Decomp
